@@ -179,11 +179,12 @@ def sibling(ctx):
         for c, h in reg.handlers['compdb'].items():
             if h.module.name != mod:
                 continue
-            for n, v in c07._item_stores(F, h, 'flags'):
-                terms = c03._terms(F, n.value, h)
+            for st in c07._item_stores(F, h, 'flags'):
+                n, h_, b_ = st.node, st.fn, st.bind
+                terms = c03._terms(F, n.value, h_)
                 idx = {}
                 for i_, t in enumerate(terms):
-                    a = F.atoms(t, h)
+                    a = F.atoms(t, h_, b_)
                     if has(a, 'global_flags') and 'g' not in idx:
                         idx['g'] = i_
                     if any("mode='global'" in x for x in a) and \
@@ -245,7 +246,7 @@ def sibling(ctx):
                Cm + 'compdb_compile'):
         f = F.fn(fq)
         st = c07._item_stores(F, f, 'deps')
-        ok = any(c07._gcc(F, n, f) for n, v in st)
+        ok = any(c07._gcc_at(F, x) for x in st)
         ctx.ob(R, 'deps-kwarg-under-gcc-flavor|' + fq, ok, f.node,
                'the depfile argument is not passed under the gcc deps '
                'flavor')
